@@ -2,10 +2,13 @@ package zzvh
 
 import (
 	"fmt"
+	"math/rand"
 	"sort"
 	"strings"
 
+	"github.com/evolbioinfo/goalign/align"
 	"github.com/evolbioinfo/gotree/acr"
+	"github.com/evolbioinfo/gotree/asr"
 	"github.com/evolbioinfo/gotree/io/nexus"
 	"github.com/evolbioinfo/gotree/tree"
 )
@@ -107,4 +110,97 @@ func H_C18_maporder() {
 	}
 	sxObserve("class", fmt.Sprintf("call=%d", op)+sub+strings.Repeat(" ", 0))
 	sxObserve("outcome", out)
+}
+
+// one randomised library call on fresh inputs; the text it produces
+func c18randomCall(op, n int) string {
+	switch op {
+	case 0, 1, 2:
+		// sequence reconstruction with random resolution of ambiguous states
+		shapeCode = 0
+		t := genTree(3, 0, false)
+		shapeCode = -1
+		a := align.NewAlign(align.NUCLEOTIDS)
+		for i, tp := range t.Tips() {
+			sxAssert(a.AddSequence(tp.Name(), []string{"AC", "CA", "GG"}[i%3], "") == nil, "AddSequence")
+		}
+		algo := []int{asr.ALGO_DOWNPASS, asr.ALGO_DELTRAN, asr.ALGO_ACCTRAN}[op]
+		nsteps, err := asr.ParsimonyAsr(t, a, algo, true)
+		return fmt.Sprint(err == nil, nsteps) + " " + t.Newick()
+	case 3:
+		shapeCode = 1
+		t := genTree(n, 0, false)
+		shapeCode = -1
+		chars := map[string]string{}
+		for i := 0; i < n; i++ {
+			chars[tipName(i)] = c12alphabet[i%3]
+		}
+		states, steps, err := acr.ParsimonyAcr(t, chars, acr.ALGO_DOWNPASS, true)
+		return fmt.Sprint(err == nil, steps) + " " + c18states(states) + " " + t.Newick()
+	case 4:
+		shapeCode = 1
+		t := genTree(n, 0, false)
+		shapeCode = -1
+		t.RotateInternalNodes()
+		return t.Newick()
+	case 5:
+		shapeCode = 1
+		t := genTree(n, 0, false)
+		shapeCode = -1
+		t.ShuffleTips()
+		return t.Newick()
+	case 6:
+		shapeCode = 0
+		t := genTree(n, 0, false) // the star: Resolve draws the grouping order
+		shapeCode = -1
+		t.Resolve()
+		return t.Newick()
+	case 7:
+		t, err := tree.RandomYuleBinaryTree(n, false)
+		if err != nil {
+			return "error"
+		}
+		return t.Newick()
+	case 8:
+		t, err := tree.RandomUniformBinaryTree(n, true)
+		if err != nil {
+			return "error"
+		}
+		return t.Newick()
+	case 9:
+		t, err := tree.RandomCaterpillarBinaryTree(n, false)
+		if err != nil {
+			return "error"
+		}
+		return t.Newick()
+	}
+	t, err := tree.RandomBalancedBinaryTree(2, true)
+	if err != nil {
+		return "error"
+	}
+	return t.Newick()
+}
+
+const c18nrandom = 11
+
+// H_C18_reseed: a randomised library call repeated in the same process after
+// seeding the generator again with the same seed gives the same text: the
+// result is a function of input, options and seed, not of what ran before.
+func H_C18_reseed() {
+	n := sxParam("n", 4)
+	op := sxChoose("call", c18nrandom)
+	sxOpt("seeded-rand", true)
+	seed := int64(sxU64("seed"))
+	// something else may have run before and used the generator
+	if sxChoose("usedbefore", 2) == 1 {
+		rand.Seed(seed + 1)
+		c18randomCall((op+4)%c18nrandom, n)
+	}
+	rand.Seed(seed)
+	out1 := c18randomCall(op, n)
+	sxReach("first")
+	rand.Seed(seed)
+	out2 := c18randomCall(op, n)
+	sxAssert(out1 == out2, "same input, options and seed: same output when repeated in one process")
+	sxReach("checked")
 }
